@@ -1,5 +1,6 @@
 //! Shared machinery of the wallet-level checks (C01, C02, C05, C06, C08, C15b).
 pub mod dump;
+pub mod fault;
 pub mod hist;
 pub mod hooks;
 pub mod ledger;
